@@ -42,6 +42,11 @@ Created create_lit_impl(M& m, const Spec& s) {
     case 31: L_MK(NAMED_REQUIRE_CALL_V(m, f(_), .TIMES(2) .RETURN(wret(eid))));
     case 32: L_MK(NAMED_ALLOW_CALL_V(m, f(le(1)), .RETURN(wret(eid))));
     case 33: L_MK(NAMED_FORBID_CALL_V(m, f(4)));
+    case 34: L_MK(NAMED_REQUIRE_CALL(m, f(_)).RT_TIMES(wrt(2)).RETURN(wret(eid)));
+    case 35: L_MK(NAMED_REQUIRE_CALL(m, f(_)).RETURN(wret(eid)).RT_TIMES(AT_LEAST(wrt(1))));
+    case 36: L_MK(NAMED_REQUIRE_CALL(m, f(_)).RT_TIMES(AT_MOST(wrt(2))).RETURN(wret(eid)));
+    case 37: L_MK(NAMED_REQUIRE_CALL(m, f(ge(2))).RETURN(wret(eid)).RT_TIMES(wrt(1)));
+    case 38: L_MK(NAMED_REQUIRE_CALL_V(m, v(_), .RT_TIMES(wrt(3))));
   }
   return Created{nullptr, 0};
 }
